@@ -26,6 +26,10 @@ import (
 	"verif/internal/rt"
 )
 
+// ones: 120 list elements that are on the operand stack while the last element is evaluated, so
+// that the recursion of callover exhausts the stack within a few frames
+var ones = strings.Repeat("1, ", 120)
+
 // invocation kinds
 var kinds = map[string]string{
 	"a":        "s := 0\nfor i := range 4 { s += i }\ns",
@@ -35,10 +39,12 @@ var kinds = map[string]string{
 	"panic":    "z := 0\n1 / z",
 	"overflow": "func r(n) { return r(n + 1) }\nr(0)",
 	"cancel":   "s := 0\nfor i := range 6 { s += i }\ns",
-	"deff":     "k := 10\nfunc f(n) { c := func() { return n }\n if n < 0 { [1][5] }\n t := k\n for i := range n { t += i }\n return t + c() * 100 }\n7",
+	"deff":     "k := 10\nfunc boom() { z := 0\n return 1 / z }\nfunc f(n) { c := func() { return n }\n if n == -2 { return [" + ones + "f(n)] }\n if n == -3 { return [boom()] }\n if n < 0 { [1][5] }\n t := k\n for i := range n { t += i }\n return t + c() * 100 }\n7",
 	"callf":    "", // Call(f, 3) with f taken from the VM after the last deff
 	"callferr": "", // Call(f) with a wrong argument count
 	"callfail": "", // Call(f, -1): f fails with a runtime error after it has created a closure over its parameter
+	"callpanic": "", // Call(f, -3): a Go panic (division by zero) two frames below the call, recovered by Call
+	"callover": "", // Call(f, -2): f recurses until the operand stack overflows (a recovered Go panic many frames deep)
 }
 
 type history []string
@@ -47,6 +53,7 @@ func (h history) String() string { return strings.Join(h, ",") }
 
 type result struct {
 	SP    int // operand stack depth change left behind by the invocation (successful ones)
+	FP    int // frame pointer change left behind by a Call (whether it succeeded or failed)
 	Val   string
 	Err   string
 	Class string
@@ -92,8 +99,9 @@ func invoke(m *vm.VirtualMachine, st *state, kind string, ctx context.Context, f
 	var val object.Object
 	var err error
 	spBefore := m.VerifSP()
+	fpBefore := m.VerifFP()
 	switch kind {
-	case "callf", "callferr", "callfail":
+	case "callf", "callferr", "callfail", "callpanic", "callover":
 		if *fn == nil {
 			return result{Err: "no function", Class: "harness"}
 		}
@@ -103,6 +111,12 @@ func invoke(m *vm.VirtualMachine, st *state, kind string, ctx context.Context, f
 		}
 		if kind == "callfail" {
 			args = []object.Object{object.NewInt(-1)}
+		}
+		if kind == "callover" {
+			args = []object.Object{object.NewInt(-2)}
+		}
+		if kind == "callpanic" {
+			args = []object.Object{object.NewInt(-3)}
 		}
 		val, err = m.Call(ctx, *fn, args)
 	default:
@@ -120,18 +134,22 @@ func invoke(m *vm.VirtualMachine, st *state, kind string, ctx context.Context, f
 			}
 		}
 	}
+	fpd := 0
+	if strings.HasPrefix(kind, "call") {
+		fpd = m.VerifFP() - fpBefore
+	}
 	if err != nil {
 		cls, _ := rt.Classify(err.Error())
-		return result{Err: err.Error(), Class: cls, IsCtx: errors.Is(err, context.Canceled)}
+		return result{Err: err.Error(), Class: cls, IsCtx: errors.Is(err, context.Canceled), FP: fpd}
 	}
 	sp := m.VerifSP() + 1 // RunCode: exactly the result on the stack
-	if kind == "callf" || kind == "callferr" || kind == "callfail" {
+	if kind == "callf" || kind == "callferr" || kind == "callfail" || kind == "callpanic" || kind == "callover" {
 		sp = m.VerifSP() - spBefore // Call: leaves the stack as it found it
 	}
 	if val == nil {
-		return result{Val: "<no value>", SP: sp}
+		return result{Val: "<no value>", SP: sp, FP: fpd}
 	}
-	return result{Val: val.Inspect(), SP: sp}
+	return result{Val: val.Inspect(), SP: sp, FP: fpd}
 }
 
 // expected computes the result of each invocation kind on a fresh VM (after the deff it depends on).
@@ -141,7 +159,7 @@ func expected(codes map[string]*compiler.Code, env *rt.Env) map[string]result {
 		m := vm.New(codes["b"], vm.WithGlobals(env.Globals), vm.WithOS(env.OS))
 		st := &state{codes: codes}
 		var fn *object.Function
-		if k == "callf" || k == "callferr" || k == "callfail" {
+		if k == "callf" || k == "callferr" || k == "callfail" || k == "callpanic" || k == "callover" {
 			invoke(m, st, "deff", context.Background(), &fn)
 		}
 		out[k] = invoke(m, st, k, context.Background(), &fn)
@@ -263,6 +281,9 @@ func (c caseT) judge(x *dsched.Exec, st *state, exp map[string]result) (violatio
 		if got.Err == "" && want.Err == "" && got.SP != want.SP {
 			return fmt.Sprintf("invocation %d (%s) leaves %d values on the VM's stack; on a fresh VM it leaves %d", i, k, got.SP, want.SP), key
 		}
+		if got.FP != want.FP || got.FP != 0 {
+			return fmt.Sprintf("invocation %d (%s) moves the VM's frame pointer by %d (a call has to leave it where it found it; on a fresh VM the same call moves it by %d)", i, k, got.FP, want.FP), key
+		}
 		if (got.Err == "") != (want.Err == "") || got.Val != want.Val || got.Class != want.Class {
 			return fmt.Sprintf("invocation %d (%s) returned (%s, err=%q); on a fresh VM the same invocation returns (%s, err=%q)", i, k, got.Val, got.Err, want.Val, want.Err), key
 		}
@@ -286,7 +307,7 @@ func histories(alpha []string, maxLen int) []history {
 			return
 		}
 		for _, a := range alpha {
-			if (a == "callf" || a == "callferr" || a == "callfail") && !contains(h, "deff") {
+			if (a == "callf" || a == "callferr" || a == "callfail" || a == "callpanic" || a == "callover") && !contains(h, "deff") {
 				continue
 			}
 			rec(append(h, a))
@@ -331,17 +352,17 @@ func Check(r *ev.Run, replay string) {
 		r.Set("traces_validated_against_impl", 1)
 		return
 	}
-	alpha := []string{"a", "err0", "panic", "cancel", "deff", "callf", "callfail"}
+	alpha := []string{"a", "err0", "panic", "cancel", "deff", "callf", "callfail", "callpanic"}
 	maxLen, bound, limit := 3, 1, 12000
 	if r.Thorough() {
-		alpha = []string{"a", "b", "err0", "err2", "panic", "cancel", "deff", "callf", "callferr", "callfail", "overflow"}
+		alpha = []string{"a", "b", "err0", "err2", "panic", "cancel", "deff", "callf", "callferr", "callfail", "callpanic", "callover", "overflow"}
 		maxLen, bound, limit = 3, 2, 30000
 	}
 	finePoints = r.Thorough()
 	hs := histories(alpha, maxLen)
 	if r.Thorough() {
 		// length 4 over the smaller alphabet, one deviation
-		for _, h := range histories([]string{"a", "err0", "panic", "cancel", "deff", "callf", "callfail"}, 4) {
+		for _, h := range histories([]string{"a", "err0", "panic", "cancel", "deff", "callf", "callfail", "callpanic"}, 4) {
 			if len(h) == 4 {
 				hs = append(hs, h)
 			}
@@ -427,7 +448,7 @@ func signature(c caseT, v string) string {
 	var k string
 	if _, err := fmt.Sscanf(v, "invocation %d (%s", &idx, &k); err == nil && idx < len(c.H) {
 		k = c.H[idx]
-		if k == "callf" || k == "callferr" || k == "callfail" {
+		if k == "callf" || k == "callferr" || k == "callfail" || k == "callpanic" || k == "callover" {
 			last := -1
 			for i := 0; i < idx; i++ {
 				if c.H[i] == "deff" {
@@ -435,7 +456,7 @@ func signature(c caseT, v string) string {
 				}
 			}
 			for i := last + 1; i < idx; i++ {
-				if c.H[i] != "callf" && c.H[i] != "callferr" && c.H[i] != "callfail" {
+				if c.H[i] != "callf" && c.H[i] != "callferr" && c.H[i] != "callfail" && c.H[i] != "callpanic" && c.H[i] != "callover" {
 					return "C07:" + kind + ":call-of-function-whose-code-was-replaced-by-a-later-RunCode"
 				}
 			}
